@@ -476,11 +476,14 @@ class BADS:
                 + " are not inside the provided plausible bounds (plausible_lower_bounds and plausible_upper_bounds)."
                 + " Expanding the plausible bounds..."
             )
-            plausible_lower_bounds = np.minimum(
-                plausible_lower_bounds, x0.min(0)
+            # Only finite coordinates of the starting points count (a
+            # non-finite starting point is replaced by a random one later)
+            x0_finite = np.where(np.isfinite(x0), x0, np.nan)
+            plausible_lower_bounds = np.fmin(
+                plausible_lower_bounds, x0_finite.min(0)
             )
-            plausible_upper_bounds = np.maximum(
-                plausible_upper_bounds, x0.max(0)
+            plausible_upper_bounds = np.fmax(
+                plausible_upper_bounds, x0_finite.max(0)
             )
 
         # Test order of bounds
